@@ -148,20 +148,23 @@ Definition wf_service (s : service) : bool :=
   type_ident (sv_name s) && forallb (wf_method (sv_base s)) (sv_methods s) &&
   distinct (map m_name (sv_methods s)).
 
-Definition wf_tmsg (single : bool) (t : tmsg) : bool :=
-  wf_virtual (tm_fields t) &&
+(* a topic message: the implicit leading field [virt] followed by the declared fields *)
+Definition wf_tmsg (single : bool) (virt : props) (t : tmsg) : bool :=
+  wf_virtual (papp virt (tm_fields t)) &&
   match tm_name t with Some n => type_ident n | None => single end.
+
+Definition is_single_b {A} (l : list A) : bool := match l with [_] => true | _ => false end.
 
 Definition wf_topic (t : topic) : bool :=
   match t with
   | TPublish name msgs =>
-      type_ident name && forallb (wf_tmsg (match msgs with [_] => true | _ => false end)) msgs &&
-      match msgs with [] => false | _ => true end
+      type_ident name && forallb (wf_tmsg (is_single_b msgs) PNil) msgs
   | TReqRes name req reply =>
       type_ident name &&
-      forallb (wf_tmsg (match req with [_] => true | _ => false end)) req &&
-      forallb (wf_tmsg (match reply with [_] => true | _ => false end)) reply
-  | TUpsert name _ msg | TEvent name _ msg => type_ident name && wf_tmsg true msg
+      forallb (wf_tmsg (is_single_b req) virt_request) req &&
+      forallb (wf_tmsg (is_single_b reply) virt_request) reply
+  | TUpsert name _ msg => type_ident name && wf_tmsg true virt_upsert msg
+  | TEvent name _ msg => type_ident name && wf_tmsg true PNil msg
   end.
 
 Definition wf_element (e : element) : bool :=
